@@ -134,7 +134,21 @@ class Tree:
         return {"canon": canon if not viols else ["bad", hist, len(fails)], "viols": viols, "label": label}
 
 
+def _ev_judge(i):
+    """single steps on MANY distinct parents (normal and hardened alternate)"""
+    root = {"k": 0xD15C0 + 977 * i, "chain": "%064x" % (0x5eed + i)}
+    # even positions of the probe: normal child; the probe is run a second time with hardened children (see run())
+    return chk_step(root, 0 if i < 10**5 else H + 1, ("real", None))[2]
+
+
 def execute(case):
+    if "hist" in case and case.get("layer") == "distinct-parent-revisits":
+        from ..core import isolated
+        from ..bfs import PureCalls
+        r = isolated(PureCalls(10**6, _ev_judge, P).run, case["hist"])
+        for v in r["viols"]:
+            v["case"] = case
+        return R(r["label"], viols=r["viols"])
     if case["k"] == "step":
         o, nt, vs = chk_step(case["root"], case["i"], tuple(case["mode"]))
         return R(o, nontrivial=nt, viols=vs)
@@ -147,6 +161,8 @@ def execute(case):
 
 
 def replay(case):
+    if "hist" in case and case.get("layer") == "distinct-parent-revisits":
+        return execute(case)["v"]
     if "hist" in case and "k" not in case:
         case = dict(case["model"], k="tree", hist=case["hist"])
     return execute(case)["v"]
@@ -172,6 +188,10 @@ def run(ctx):
                     for mode in MODES:
                         cases.append({"k": "step", "root": root, "i": i, "mode": list(mode)})
     ctx.product("single-step-product", cases, execute)
+    from ..bfs import eviction_probe, PureCalls
+    ev_sizes = (1, 2, 3, 4, 5, 8, 9, 16, 17, 32, 33, 64, 65, 128, 129) + ((256, 257) if ctx.thorough else ())
+    eviction_probe(ctx, "distinct-parent-revisits", PureCalls(10**6, _ev_judge, P), lambda i: i, sizes=ev_sizes)                 # normal children
+    eviction_probe(ctx, "distinct-parent-revisits", PureCalls(10**6, _ev_judge, P), lambda i: 10**5 + i, sizes=ev_sizes[:13])    # hardened children
     ctx.extra["states"] = ctx.extra.get("states", 0)
     # (b) derivation-tree BFS
     roots = [{"k": hd.master(bytes.fromhex("000102030405060708090a0b0c0d0e0f")).k,
@@ -188,7 +208,7 @@ def run(ctx):
                 smp["model"] = {"root": root, "alphabet": alpha}
     for v in ctx.violations:
         c = v.get("case")
-        if isinstance(c, dict) and "hist" in c and "k" not in c:
+        if isinstance(c, dict) and "hist" in c and "k" not in c and c.get("layer", "").startswith("derivation-tree-root"):
             n = int(c["layer"].replace("derivation-tree-root", ""))
             c["model"] = {"root": roots[n], "alphabet": alpha}
     return {"scalars": len(Ks), "chain_codes": len(CCs), "parent_depths": depths, "indexes": I, "prf_modes": [m[0] + ("" if m[1] is None else "=%x" % m[1]) for m in MODES],
